@@ -281,7 +281,82 @@ func c06(tier string, args []string) int {
 	}
 	run.AddEvals(searches)
 	run.Set("positions_per_config", len(fens))
+	c06Deep(run, tier, shard, n)
 	return run.FinishWorker()
+}
+
+// c06Deep: the differential clause at a depth where mate-distance bounds matter (forced mates of several lengths in
+// one tree): two heavy pieces against the bare king, quiescence on, depth 5 (thorough 6); the root value must be the
+// same for the 8 combinations of MDP, PVS and killer moves (everything else off).
+func c06Deep(run *vl.Run, tier string, shard, n int) {
+	var fens []string
+	wks := []int{35} // d5
+	grid := []int{45, 46, 54, 61, 5, 22, 30} // f6 g6 g7 f8 f1 g3 g4
+	bks := []int{11, 12, 3, 59, 51} // d2 e2 d1 d8 d7
+	depth := 5
+	if tier == "thorough" {
+		wks = []int{35, 28, 18}
+		grid = []int{45, 46, 54, 61, 5, 22, 30, 47, 63, 7, 15}
+		bks = []int{11, 12, 3, 59, 51, 0, 56, 31, 24}
+		depth = 6
+	}
+	for _, wk := range wks {
+		for i, a := range grid {
+			for _, b := range grid[i+1:] {
+				for _, bk := range bks {
+					for _, kinds := range [][2]int8{{refchess.Queen, refchess.Queen}, {refchess.Queen, refchess.Rook}} {
+						var pos refchess.Pos
+						pos.EP, pos.Full, pos.White = -1, 1, true
+						if wk == a || wk == b || wk == bk || a == bk || b == bk {
+							continue
+						}
+						pos.B[wk], pos.B[bk], pos.B[a], pos.B[b] = refchess.King, -refchess.King, kinds[0], kinds[1]
+						if pos.Valid() && len(pos.LegalMoves()) > 0 {
+							fens = append(fens, pos.FEN())
+						}
+					}
+				}
+			}
+		}
+	}
+	step := 1
+	if tier != "thorough" {
+		step = len(fens)/24 + 1 // quick tier: 24 positions spread over the family
+	}
+	for i := 0; i < len(fens); i += step {
+		if (i/step)%n != shard || run.Expired() {
+			continue
+		}
+		f := fens[i]
+		var base Value
+		for mask := 0; mask < 8; mask++ {
+			cfg := soundCfg(0, true)
+			cfg["UseMDP"], cfg["UsePVS"], cfg["UseKiller"] = mask&1 != 0, mask&2 != 0, mask&4 != 0
+			cfg.apply()
+			s := search.NewSearch()
+			s.SetUciHandler(&capDriver{})
+			var res search.Result
+			msg, pan := vl.Guard(func() { res = runSearch(s, casePos(f), search.Limits{Depth: depth}) })
+			run.AddStates(1)
+			run.Count("deep_differential_searches", 1)
+			rep := map[string]interface{}{"kind": "search", "fen": f, "depth": depth, "config": fmt.Sprintf("quiescence, MDP=%v PVS=%v killer=%v, all else off", mask&1 != 0, mask&2 != 0, mask&4 != 0)}
+			if pan {
+				run.Violate("search-panic", msg, rep)
+				continue
+			}
+			run.AddTransitions(int64(s.NodesVisited()))
+			if mask == 0 {
+				base = res.BestValue
+			} else if res.BestValue != base {
+				rep["value"], rep["plain_alphabeta_value"] = int(res.BestValue), int(base)
+				cls := "quiescence-value-depends-on-sound-switches:deep"
+				if res.BestValue.IsCheckMateValue() || base.IsCheckMateValue() {
+					cls += ":mate-score"
+				}
+				run.Violate(cls, fmt.Sprintf("depth %d root value %d, plain alpha-beta %d", depth, res.BestValue, base), rep)
+			}
+		}
+	}
 }
 
 // c06Histories: searches of case f on a Search instance whose hash table was filled by earlier searches.
